@@ -4,6 +4,7 @@ package main
 
 import (
 	"fmt"
+	"sort"
 	"go/ast"
 	"go/constant"
 	"go/parser"
@@ -512,6 +513,21 @@ func (env *SpecEnv) addrOf(x *SExpr) (*Term, types.Type) {
 			}
 		}
 	}
+	if x.Kind == "id" && env.scopePos.IsValid() && env.e != nil && env.e.fn.Pkg != nil {
+		if sc := env.e.fn.Pkg.Pkg.Scope().Innermost(env.scopePos); sc != nil {
+			if _, obj := sc.LookupParent(x.Name, env.scopePos); obj != nil {
+				if v, ok := obj.(*types.Var); ok {
+					for _, a := range env.e.addrsOfVar(v) {
+						if _, isCell := env.e.cellOf[a]; !isCell {
+							if pv, ok := env.e.vals[a]; ok && pv.T != nil {
+								return pv.T, v.Type()
+							}
+						}
+					}
+				}
+			}
+		}
+	}
 	env.fail("not an addressable expression: %s", x)
 	return nil, nil
 }
@@ -991,6 +1007,18 @@ func (env *SpecEnv) call(x *SExpr) (*Term, types.Type) {
 					return Ite(Le(a, b), a, b), t
 				}
 				return Ite(Le(a, b), b, a), t
+			case "gf":
+				// gf(obj, name, Type): specification-only field `name` of the object obj points to
+				o, _ := env.tr(args[0])
+				t := env.resolveTypeExpr(args[2])
+				cl, so := ghostClass(args[1].Name, t)
+				return Select(env.e.getMem(env.cur, cl, so), o), t
+			case "chr":
+				c, _ := env.tr(args[0])
+				if StrSort == "String" {
+					return App("str.from_code", "String", c), types.Typ[types.String]
+				}
+				return UF("runestr", StrSort, c), types.Typ[types.String]
 			case "emod":
 				a, at := env.tr(args[0])
 				b, _ := env.tr(args[1])
@@ -1060,6 +1088,10 @@ func (env *SpecEnv) call(x *SExpr) (*Term, types.Type) {
 	return nil, nil
 }
 
+func ghostClass(name string, t types.Type) (string, string) {
+	return "G|" + name, arraySort("Loc", sortOf(t))
+}
+
 func (env *SpecEnv) resolveTypeExpr(x *SExpr) types.Type {
 	if t := env.tryType(x); t != nil {
 		return t
@@ -1085,6 +1117,8 @@ func (env *SpecEnv) findSpec(name string) *SpecFunc {
 }
 
 var recSpecDone = map[string]bool{}
+var recPass1 = map[string]bool{}
+var recSpecMem = map[string][][2]string{}
 
 func (env *SpecEnv) applySpec(sf *SpecFunc, args []*SExpr) (*Term, types.Type) {
 	if len(args) != len(sf.Params) {
@@ -1148,43 +1182,71 @@ func (env *SpecEnv) applySpec(sf *SpecFunc, args []*SExpr) (*Term, types.Type) {
 			}
 		}
 		name := "spec!" + sf.Name
+		if recPass1[name] {
+			// class discovery pass: the value of the recursive call is irrelevant
+			return BVar("rec!dummy!"+sortOf(rt), sortOf(rt)), rt
+		}
 		if !recSpecDone[name] {
 			recSpecDone[name] = true
-			var ps []string
-			n := &defEnv
-			n.vars = map[string]specVar{}
-			n.scopePos = token.NoPos
-			var pvs []*Term
-			n.mapViews = map[int][2]*Term{}
-			for i, p := range sf.Params {
-				bv := BVar("a!"+p.Name, sortOf(ats[i]))
-				if mt, ok := types.Unalias(ats[i]).Underlying().(*types.Map); ok {
-					_, ds, _, vs := mapClasses(mt)
-					dom := BVar("a!"+p.Name+"!dom", arrayElemSort(ds))
-					val := BVar("a!"+p.Name+"!val", arrayElemSort(vs))
-					ps = append(ps, fmt.Sprintf("(%s %s)", dom.Name, dom.Sort), fmt.Sprintf("(%s %s)", val.Name, val.Sort))
-					views := n.mapViews
+			build := func(st *State) (*Term, []string) {
+				var ps []string
+				n := &defEnv
+				n.vars = map[string]specVar{}
+				n.scopePos = token.NoPos
+				n.cur, n.old, n.before, n.cellSt = st, nil, nil, nil
+				n.mapViews = map[int][2]*Term{}
+				for i, p := range sf.Params {
+					bv := BVar("a!"+p.Name, sortOf(ats[i]))
+					if mt, ok := types.Unalias(ats[i]).Underlying().(*types.Map); ok {
+						_, ds, _, vs := mapClasses(mt)
+						dom := BVar("a!"+p.Name+"!dom", arrayElemSort(ds))
+						val := BVar("a!"+p.Name+"!val", arrayElemSort(vs))
+						ps = append(ps, fmt.Sprintf("(%s %s)", dom.Name, dom.Sort), fmt.Sprintf("(%s %s)", val.Name, val.Sort))
+						views := n.mapViews
+						n = n.with(p.Name, bv, ats[i])
+						n.mapViews = views
+						n.mapViews[bv.id] = [2]*Term{dom, val}
+						continue
+					}
+					ps = append(ps, fmt.Sprintf("(%s %s)", bv.Name, bv.Sort))
 					n = n.with(p.Name, bv, ats[i])
-					n.mapViews = views
-					n.mapViews[bv.id] = [2]*Term{dom, val}
-					continue
 				}
-				pvs = append(pvs, bv)
-				ps = append(ps, fmt.Sprintf("(%s %s)", bv.Name, bv.Sort))
-				n = n.with(p.Name, bv, ats[i])
+				n.depth = 0
+				x, err := sf.Body.Expr()
+				if err != nil {
+					env.fail("%v", err)
+				}
+				body, _ := n.tr(x)
+				return body, ps
 			}
-			n.depth = 0
-			// declare first so the body may refer to itself
+			// pass 1: which memory classes does the body read?
+			recPass1[name] = true
+			st1 := &State{reach: True, cells: map[int]*Term{}, mem: map[string]*Term{}, recMem: map[string]*Term{}, ctr: Var("ctr@0", "Int")}
+			build(st1)
+			delete(recPass1, name)
+			var classes []string
+			for c := range st1.recMem {
+				classes = append(classes, c)
+			}
+			sort.Strings(classes)
+			var cinfo [][2]string
+			for _, c := range classes {
+				cinfo = append(cinfo, [2]string{c, st1.recMem[c].Sort})
+			}
+			recSpecMem[name] = cinfo
+			// pass 2: the definition, with those classes as extra parameters
+			st2 := &State{reach: True, cells: map[int]*Term{}, mem: map[string]*Term{}, recMem: map[string]*Term{}, ctr: Var("ctr@0", "Int")}
+			for _, ci := range cinfo {
+				st2.recMem[ci[0]] = BVar("m!"+sanitize(ci[0]), ci[1])
+			}
 			TC.Declare(name, "")
-			x, err := sf.Body.Expr()
-			if err != nil {
-				env.fail("%v", err)
+			body, ps := build(st2)
+			for _, ci := range cinfo {
+				ps = append(ps, fmt.Sprintf("(%s %s)", st2.recMem[ci[0]].Name, ci[1]))
 			}
-			body, _ := n.tr(x)
 			var sb strings.Builder
 			body.write(&sb, nil)
 			TC.decls[name] = fmt.Sprintf("(define-fun-rec %s (%s) %s %s)", name, strings.Join(ps, " "), sortOf(rt), sb.String())
-			// dependencies: every symbol in body
 			var deps []string
 			seen := map[int]bool{}
 			var walk func(t *Term)
@@ -1202,7 +1264,6 @@ func (env *SpecEnv) applySpec(sf *SpecFunc, args []*SExpr) (*Term, types.Type) {
 			}
 			walk(body)
 			TC.deps[name] = deps
-			// move declaration to the end of the order so dependencies precede it
 			for i, o := range TC.order {
 				if o == name {
 					TC.order = append(TC.order[:i], TC.order[i+1:]...)
@@ -1210,6 +1271,9 @@ func (env *SpecEnv) applySpec(sf *SpecFunc, args []*SExpr) (*Term, types.Type) {
 				}
 			}
 			TC.order = append(TC.order, name)
+		}
+		for _, ci := range recSpecMem[name] {
+			callArgs = append(callArgs, env.e.getMem(env.cur, ci[0], ci[1]))
 		}
 		return App(name, sortOf(rt), callArgs...), rt
 	}
